@@ -178,6 +178,13 @@ fn main() {
         st
     }).reduce(Stats::default, Stats::merge);
 
+    // objects with custom precedence orders (outside the statement's rules, but they must still round-trip)
+    let mut s1 = s1;
+    for po in ["[]", "[Major]", "[Build,ExtraCore,Dev,Post,PreReleaseNum,PreReleaseLabel,Core,Patch,Minor,Major,Epoch]", "[Epoch,Major,Minor,Patch,Core,PreReleaseLabel,PreReleaseNum,Post,Dev,ExtraCore,Build]", "[Major,Major,Minor]"] {
+        let doc = format!("(schema:(core:[var(Major),var(Minor)],extra_core:[var(PreRelease)],build:[str(\"b\")],precedence_order:{po}),vars:(major:Some(1),minor:Some(2),pre_release:Some((label:Beta,number:None)),custom:{{\"k\":[1]}}))");
+        match Zerv::from_str(&doc) { Ok(z) => judge_round_trip(&ctx, &format!("precedence_order={po}"), &z, &mut s1), Err(_) => s1.inc("custom_precedence_rejected") }
+    }
+
     // (a2) pipe equivalence for version and flow
     let mut pipe_jobs: Vec<(&str, Vec<String>, Option<String>)> = vec![];
     let stdin_doc = bind::zerv(&schemas[22].1, &base_vars()).unwrap().to_string();
